@@ -156,6 +156,122 @@ fn check_content(ctx: &Ctx, out: &mut CaseOut, dir: &Path, cfg: &Cfg, label: &st
     fails
 }
 
+#[derive(Default, Debug)]
+struct SysLog {
+    /// flags of every openat of the target path
+    opens: Vec<String>,
+    /// bytes written to descriptors of the target (successful writes)
+    written: u64,
+    writes: u32,
+    truncates: Vec<u64>,
+    unlinks_or_renames: u32,
+}
+
+/// offline checker over a recorded syscall log (strace -f): what happened to `target`?
+fn parse_strace(log: &str, target: &str) -> SysLog {
+    let mut s = SysLog::default();
+    let mut fds: std::collections::HashSet<String> = Default::default();
+    for line in log.lines() {
+        // "<pid>  call(args) = ret"
+        let Some((_, rest)) = line.trim_start().split_once(char::is_whitespace) else { continue };
+        let rest = rest.trim_start();
+        let ret = rest.rsplit_once(" = ").map(|x| x.1.trim()).unwrap_or("");
+        if let Some(args) = rest.strip_prefix("openat(") {
+            if args.contains(&format!("\"{target}\"")) {
+                let flags = args.split(", ").nth(2).unwrap_or("").split(')').next().unwrap_or("").to_string();
+                s.opens.push(flags);
+                if let Ok(fd) = ret.split_whitespace().next().unwrap_or("").parse::<i64>() {
+                    if fd >= 0 {
+                        fds.insert(fd.to_string());
+                    }
+                }
+            }
+        } else if let Some(args) = rest.strip_prefix("close(") {
+            let fd = args.split(')').next().unwrap_or("");
+            fds.remove(fd);
+        } else if rest.starts_with("write(") || rest.starts_with("pwrite64(") {
+            let fd = rest.split('(').nth(1).unwrap_or("").split(',').next().unwrap_or("");
+            if fds.contains(fd) {
+                s.writes += 1;
+                if let Ok(n) = ret.split_whitespace().next().unwrap_or("").parse::<i64>() {
+                    if n > 0 {
+                        s.written += n as u64;
+                    }
+                }
+            }
+        } else if let Some(args) = rest.strip_prefix("ftruncate(") {
+            let mut it = args.split(|c| c == ',' || c == ')');
+            let fd = it.next().unwrap_or("").trim();
+            let len = it.next().unwrap_or("").trim();
+            if fds.contains(fd) {
+                s.truncates.push(len.parse().unwrap_or(u64::MAX));
+            }
+        } else if (rest.starts_with("unlink") || rest.starts_with("rename")) && rest.contains(&format!("\"{target}\"")) {
+            s.unlinks_or_renames += 1;
+        }
+    }
+    s
+}
+
+/// run the three modes under strace and check the recorded event log
+fn strace_case(ctx: &Ctx, rng: &mut Rng, out: &mut CaseOut, dir: &Path) {
+    let cfg = Cfg::sample_sane(rng);
+    let text = common::well_formed(ctx, rng, 15).text;
+    let Some((formatted, _)) = common::run(out, &cfg, &text) else { return };
+    for (label, content) in [("needs-formatting", format!("{text}    \n\n\n")), ("already-formatted", formatted.clone())] {
+        for mode in ["files", "stdout", "check"] {
+            let f = dir.join("s.pas");
+            if std::fs::write(&f, &content).is_err() {
+                return;
+            }
+            let log = dir.join("strace.log");
+            let _ = std::fs::remove_file(&log);
+            let mut cmd = std::process::Command::new("strace");
+            cmd.args(["-f", "-e", "trace=openat,close,write,pwrite64,ftruncate,unlink,unlinkat,rename,renameat,renameat2", "-o"]).arg(&log).arg(&ctx.cli_bin);
+            cmd.args(cfg.to_cli_args()).args(["--mode", mode, "s.pas"]).current_dir(dir).env("RAYON_NUM_THREADS", "2");
+            cmd.stdout(std::process::Stdio::null()).stderr(std::process::Stdio::null());
+            let Ok(st) = cmd.status() else {
+                out.count("strace.not_available");
+                return;
+            };
+            let _ = st;
+            let Ok(logtext) = std::fs::read_to_string(&log) else {
+                out.count("strace.not_available");
+                return;
+            };
+            out.evals += 1;
+            out.count("strace.runs");
+            let s = parse_strace(&logtext, "s.pas");
+            if s.opens.is_empty() {
+                out.count("strace.target_not_seen");
+                continue;
+            }
+            let writable_open = s.opens.iter().any(|f| f.contains("O_WRONLY") || f.contains("O_RDWR") || f.contains("O_TRUNC") || f.contains("O_CREAT") || f.contains("O_APPEND"));
+            let changed = content != formatted;
+            match mode {
+                "files" => {
+                    if s.opens.iter().any(|f| f.contains("O_TRUNC")) {
+                        out.violate("C16", "opened-with-truncate", format!("[{}] files mode opened the file with O_TRUNC ({:?}): a failure after this point loses the content", cfg.short(), s.opens), &content, Some(&cfg));
+                    }
+                    if changed {
+                        if s.truncates.len() != 1 || s.truncates[0] != s.written {
+                            out.violate("C16", "length-not-set-to-bytes-written", format!("[{}] files mode wrote {} bytes in {} write(s) but set the length with {:?}", cfg.short(), s.written, s.writes, s.truncates), &content, Some(&cfg));
+                        }
+                    } else if s.writes > 0 || !s.truncates.is_empty() {
+                        out.violate("C16", "rewrote-unchanged-file", format!("[{}] {label}: files mode issued {} write(s) / {:?} truncation(s) on an already formatted file", cfg.short(), s.writes, s.truncates), &content, Some(&cfg));
+                    }
+                }
+                _ => {
+                    if writable_open || s.writes > 0 || !s.truncates.is_empty() || s.unlinks_or_renames > 0 {
+                        out.violate("C16", "write-class-syscall-in-readonly-mode", format!("[{}] {mode} mode on a {label} file: open flags {:?}, {} write(s), truncations {:?}, {} unlink/rename", cfg.short(), s.opens, s.writes, s.truncates, s.unlinks_or_renames), &content, Some(&cfg));
+                    }
+                }
+            }
+            out.nontrivial.push(rng::hash_combine(rng::hash_str(&content), rng::hash_str(mode)));
+        }
+    }
+}
+
 impl Prop for C16 {
     fn id(&self) -> &'static str {
         "C16"
@@ -178,6 +294,11 @@ impl Prop for C16 {
         let scratch = Scratch::new(&ctx.work_dir, "c16");
         let dir = scratch.path.as_path();
         let cfg = Cfg::sample_sane(&mut rng);
+        if idx % 8 == 3 {
+            // recorded syscall log, checked offline
+            strace_case(ctx, &mut rng, &mut out, dir);
+            return out;
+        }
         if idx % 8 == 7 {
             // ---- failing files: unreadable, undecodable, missing
             let good = dir.join("good.pas");
